@@ -28,7 +28,7 @@ type Case struct {
 
 var universe = func() []label.TargetLabel {
 	var u []label.TargetLabel
-	for _, p := range []string{"", "a", "a/b", "ab", "a/bb", "b", "a/b/a", "b/a", "aa", "a.b"} {
+	for _, p := range []string{"", "a", "a/b", "ab", "a/bb", "b", "a/b/a", "b/a", "aa", "a.b", "ab/a", "a/bb/a", "aa/b/a", ".a", "a./b"} {
 		for _, n := range []string{"a", "b", "ab", "all", "bb", "a.b", "test"} {
 			u = append(u, label.TargetLabel{Package: p, Name: n})
 		}
@@ -142,7 +142,7 @@ func TestEnum(t *testing.T) {
 					buf[i] = alphabet[d]
 				}
 				if idx%shards == shard {
-					for _, cur := range []string{"", "a", "a/b"} {
+					for _, cur := range []string{"", "a", "a/b", ".a"} {
 						if !yield(Case{Cur: cur, S: string(buf)}) {
 							return
 						}
@@ -178,7 +178,7 @@ func TestRandom(t *testing.T) {
 		for i := 0; i < n; i++ {
 			b.WriteString(rapid.SampledFrom(pieces).Draw(t, "piece"))
 		}
-		return Case{Cur: rapid.SampledFrom([]string{"", "a", "a/b", "ab", "a.b"}).Draw(t, "cur"), S: b.String()}
+		return Case{Cur: rapid.SampledFrom([]string{"", "a", "a/b", "ab", "a.b", ".a", ".ci/tools", "..a", "./a", "a/.b"}).Draw(t, "cur"), S: b.String()}
 	}
 	pbt.Main(t, s)
 }
